@@ -202,25 +202,14 @@ func r15handler(c *an.Ctx, h pagingHandler) {
 		}
 		return len(an.ValuesAt(v)) > 0
 	}
-	// High = phi(len(listing), next+size) selected by (next+size > len)
+	// High = min(next+size, len(listing)), however the selection is spelled
 	okHigh := false
 	var sum *ssa.BinOp
-	if ph, ok := page.High.(*ssa.Phi); ok && len(ph.Edges) == 2 {
-		for i, e := range ph.Edges {
-			o := ph.Edges[1-i]
-			if isLenListing(e) {
-				if bo, isBO := o.(*ssa.BinOp); isBO && bo.Op == token.ADD {
-					sum = bo
-					// the len edge is taken exactly when sum > len
-					predLen := ph.Block().Preds[i]
-					for _, ed := range an.GuardingEdges(predLen.Instrs[len(predLen.Instrs)-1]) {
-						if cb, isC := ed.If.Cond.(*ssa.BinOp); isC && cb.X == ssa.Value(bo) && isLenListing(cb.Y) {
-							if (cb.Op == token.GTR && ed.Branch) || (cb.Op == token.LEQ && !ed.Branch) || (cb.Op == token.GEQ && ed.Branch) {
-								okHigh = true
-							}
-						}
-					}
-				}
+	sameQty := func(x, y ssa.Value) bool { return isLenListing(x) && isLenListing(y) }
+	if a, b, isMin := an.MinSelect(page.High, sameQty); isMin {
+		for _, pair := range [][2]ssa.Value{{a, b}, {b, a}} {
+			if bo, isBO := stripIntConv(pair[0]).(*ssa.BinOp); isBO && bo.Op == token.ADD && isLenListing(pair[1]) {
+				sum, okHigh = bo, true
 			}
 		}
 	}
@@ -251,11 +240,19 @@ func r15handler(c *an.Ctx, h pagingHandler) {
 	if pred != nil {
 		c.SawFunc(an.FuncName(pred))
 		for _, r := range an.Returns(pred) {
-			if bo, ok := r.Results[0].(*ssa.BinOp); ok && (bo.Op == token.GTR || bo.Op == token.GEQ) {
-				if idx, f := indexedField(bo.X); idx == ssa.Value(pred.Params[0]) {
-					keyField = f
-					strict = bo.Op == token.GTR
-					lastKey = bo.Y
+			if bo, ok := r.Results[0].(*ssa.BinOp); ok {
+				// item.key > lastKey, or lastKey < item.key
+				x, y, op := bo.X, bo.Y, bo.Op
+				if op == token.LSS || op == token.LEQ {
+					x, y = y, x
+					op = map[token.Token]token.Token{token.LSS: token.GTR, token.LEQ: token.GEQ}[op]
+				}
+				if op == token.GTR || op == token.GEQ {
+					if idx, f := indexedField(x); idx == ssa.Value(pred.Params[0]) {
+						keyField = f
+						strict = op == token.GTR
+						lastKey = y
+					}
 				}
 			}
 		}
@@ -337,7 +334,8 @@ func r15handler(c *an.Ctx, h pagingHandler) {
 				if an.IsNilConst(e) {
 					predB := ph.Block().Preds[i]
 					for _, ed := range an.GuardingEdges(predB.Instrs[len(predB.Instrs)-1]) {
-						if cb, isC := ed.If.Cond.(*ssa.BinOp); isC && cb.X == ssa.Value(sum) && isLenListing(cb.Y) && ed.Branch && (cb.Op == token.GTR || cb.Op == token.GEQ) {
+						// the end is reached: len(listing) <= next+size, in any spelling
+						if lo, hi, _, isOrd := an.OrderFact(ed); isOrd && sum != nil && stripIntConv(hi) == ssa.Value(sum) && isLenListing(lo) {
 							okClear = true
 						}
 					}
@@ -385,6 +383,8 @@ func capAt(leaves []*an.Leaf, n int64) (int64, bool) {
 			{"(n<%d)", func(n, k int64) bool { return n < k }}, {"(n<=%d)", func(n, k int64) bool { return n <= k }},
 			{"(n>%d)", func(n, k int64) bool { return n > k }}, {"(n>=%d)", func(n, k int64) bool { return n >= k }},
 			{"%d==n", func(n, k int64) bool { return n == k }}, {"n==%d", func(n, k int64) bool { return n == k }},
+			{"(%d<n)", func(n, k int64) bool { return k < n }}, {"(%d<=n)", func(n, k int64) bool { return k <= n }},
+			{"(%d>n)", func(n, k int64) bool { return k > n }}, {"(%d>=n)", func(n, k int64) bool { return k >= n }},
 		} {
 			if cnt, err := fmt.Sscanf(a2, f.format, &k); err == nil && cnt == 1 && fmt.Sprintf(f.format, k) == a2 {
 				return f.eval(n, k), true
@@ -510,7 +510,7 @@ func r15pages(c *an.Ctx) {
 				}
 			}
 		})
-		c.Check(good && n >= 2 && checks >= 2, "R15.2", name+"|every decoding failure is InvalidArgument", fn.Pos(), fmt.Sprintf("%d failure returns", n), "a malformed page token is not answered with codes.InvalidArgument at every failure point (base64 and message decoding)")
+		c.Check(good && n >= 1 && checks >= 2, "R15.2", name+"|every decoding failure is InvalidArgument", fn.Pos(), fmt.Sprintf("%d failure returns", n), "a malformed page token is not answered with codes.InvalidArgument at every failure point (base64 and message decoding)")
 	}
 }
 
@@ -520,15 +520,34 @@ func flowsToIfNil(v ssa.Value) []*ssa.If {
 	if !an.IsErrorType(v.Type()) {
 		return nil
 	}
-	for _, u := range an.Referrers(v) {
-		if bo, ok := u.(*ssa.BinOp); ok {
-			for _, u2 := range an.Referrers(bo) {
-				if iff, ok := u2.(*ssa.If); ok {
-					out = append(out, iff)
+	seen := map[ssa.Value]bool{}
+	var walk func(x ssa.Value)
+	walk = func(x ssa.Value) {
+		if seen[x] {
+			return
+		}
+		seen[x] = true
+		for _, u := range an.Referrers(x) {
+			switch y := u.(type) {
+			case *ssa.BinOp:
+				for _, u2 := range an.Referrers(y) {
+					if iff, ok := u2.(*ssa.If); ok {
+						out = append(out, iff)
+					}
+				}
+			case *ssa.Phi:
+				// several failure points share one error variable (`if err == nil { err = next() }; if err != nil`)
+				walk(y)
+			case *ssa.Store:
+				if cell := an.CellOf(y.Addr); cell != nil {
+					for _, l := range an.LoadsOf(cell) {
+						walk(l)
+					}
 				}
 			}
 		}
 	}
+	walk(v)
 	return out
 }
 
